@@ -78,12 +78,19 @@ def template_program(draw):
     return head + "def g(c: int):\n    d = {" + ", ".join(f"{n!r}: {i}" for i, n in enumerate(names)) + "}\n    e = d if c else {" + ", ".join(f"{n!r}: 's'" for n in reversed(names)) + "}\n    reveal_type(e)\n    reveal_type(e.get('alpha'))\n"
 
 
+def stable_source(src):
+    """Programs that read the clock / random sources print different values on every run."""
+    import re
+
+    return not re.search(r"\b(datetime|time|random|uuid|getpid|secrets|tempfile|urandom)\b", src)
+
+
 def program_strategy():
     typed = st.lists(gen_prog.function("f0", 2), min_size=1, max_size=2).map(
         lambda fs: gen_prog.HEADER + "\n\n".join(f["src"].replace("def f0(", f"def f{i}(") for i, f in enumerate(fs)) + "\n")
     return st.one_of(
         template_program(), template_program(),
-        corpus.program_strategy(2).map(lambda t: t[1]),
+        corpus.program_strategy(2).map(lambda t: t[1]).filter(stable_source),
         typed,
     )
 
